@@ -21,6 +21,8 @@ def run(ctx):
     # (an inherent instruction has exactly one statement: a wrong reserved size for it must not depend on the draw)
     every = asmgen.every_cell(stmts, rnd)
     asmcheck.run_suite(ctx, "cell-frames", [framed(s, "cell") for s in sample + every])
+    from harness.props import c04
+    asmcheck.run_suite(ctx, "shared-label-mixed-width", c04.shared_label_cases(rnd, 10000 if thorough else 800))
     # S3: code -> spec, random programs; every statement followed by a labelled one
     n_small, n_long = (60000, 4000) if thorough else (5000, 300)
     cases = []
